@@ -98,6 +98,9 @@ func (s bitmap64) And(provider Provider[uint64]) {
 		s.bitmap.And(typedProvider.bitmap)
 
 	case Duplex[uint64]:
+		// Take one consistent copy of the operand: a thread-safe operand may be written to between two lookups
+		typedProvider = typedProvider.Clone()
+
 		// Iterate over a snapshot: removing from the bitmap while iterating it skips values
 		s.Clone().Each(func(nextValue uint64) bool {
 			if !typedProvider.Contains(nextValue) {
@@ -137,6 +140,9 @@ func (s bitmap64) AndNot(provider Provider[uint64]) {
 		s.bitmap.AndNot(typedProvider.bitmap)
 
 	case Duplex[uint64]:
+		// Take one consistent copy of the operand: a thread-safe operand may be written to between two lookups
+		typedProvider = typedProvider.Clone()
+
 		// Iterate over a snapshot: removing from the bitmap while iterating it skips values
 		s.Clone().Each(func(nextValue uint64) bool {
 			if typedProvider.Contains(nextValue) {
